@@ -470,6 +470,64 @@ def bound_method_cycle(ctx):
     return True
 
 
+SNIPPETS = {
+    "throw": "var a = [1, 2, 3]; throw a;",
+    "throw_in_fn": "fn f() { var b = [1]; throw (b, 2); } f();",
+    "ok_cycle": "var a = [1, 2, 3]; a.push(a);",
+    "fiber_throw": "var f = Fiber.new(|| { var z = [1]; throw z; }); f.call();",
+    "fiber_yield": "var f = Fiber.new(|| { var z = [1]; Fiber.yield(z); }); f.call();",
+    "native_error": "var v = [1]; v[7];",
+    "closure_thrown": "{ var a = [1, 2, 3]; var c = || a; throw c; }",
+    "finally_rethrow": "try { throw [1]; } finally { var q = [2]; }",
+    "instance": "#[constructor(new)] class T { fn m(self) { return self; } } var t = T.new(); t.f = t.m; throw t;",
+    "deep": "fn d(n) { var l = [n]; if n == 0 { throw l; } return d(n - 1); } d(20);",
+}
+
+
+def check_repl(ctx, only=None):
+    """histories on ONE Vm: the same snippet interpreted n and 2n times (most end in an uncaught error, which
+    unwinds the Vm): nothing but strings and compiled code may be left behind"""
+    names = [only] if only else sorted(SNIPPETS)
+    n = 0
+    for build, binary, (a, b) in (("release", ctx.harness("release"), (20, 40)), ("debug", ctx.harness("debug"), (6, 12))):
+        lines = []
+        for nm in names:
+            for k in (a, b):
+                lines.append("repl stats=1,collect_end=1 " + " ".join([hx(SNIPPETS[nm])] * k))
+        recs = yvlib.run_harness(binary, lines, case_timeout_ms=20000)
+        for i, nm in enumerate(names):
+            ra, rb = recs[2 * i], recs[2 * i + 1]
+            n += 2
+            if ra.crashed or rb.crashed or ra.result[0] == "panic" or rb.result[0] == "panic":
+                if len(ctx.violations) < 5:
+                    ctx.violation("repeated snippets on one Vm crash (%s build)" % build, input=SNIPPETS[nm], actual=str((ra.result, rb.result)),
+                                  kind="repl", snippet=nm)
+                continue
+            ka, kb = counted(kinds_of(ra, "K")), counted(kinds_of(rb, "K"))
+            if ka != kb and len(ctx.violations) < 5:
+                diff = {k: (ka.get(k, 0), kb.get(k, 0)) for k in set(ka) | set(kb) if ka.get(k, 0) != kb.get(k, 0)}
+                ctx.violation("objects left behind grow with the number of snippets interpreted on one Vm (%s build, %d vs %d)" % (build, a, b),
+                              input=SNIPPETS[nm], expected="equal counts by kind", actual=str(short(diff)), kind="repl", snippet=nm)
+    return n
+
+
+def check_run_logs(ctx, specs, quick):
+    """the plain `run log=1` path: the log starts after the Vm's start-up allocations, the first record seeds
+    the model (PacingRun.seed_last)"""
+    rel = ctx.harness("release")
+    c = consts()
+    n1 = sizes(quick)["rel"][0]
+    recs = yvlib.run_harness(rel, ["run log=1,stats=1,collect_end=1 " + hx(render(dict(sp, probe=0), n1)) for sp in specs], case_timeout_ms=30000)
+    terms = [pacing_term(alloc_log(r), c) for r in recs if alloc_log(r)]
+    vals = yvlib.coq_eval(["YV:PacingRun"], terms, shard_size=1, tag="C16runlog", preamble="Open Scope string_scope.")
+    for sp, val in zip(specs, vals):
+        if val is None or not val.startswith("M:OK|"):
+            ctx.corr_broken.append("`run log=1` allocation log (seeded at its first record) is not a run of Pacing.v: %s | spec %s" % (val, json.dumps(sp)))
+        elif "|S:OK|" not in val and len(ctx.violations) < 5:
+            ctx.violation("the heap exceeds the bound of pacing_bound (log of `run log=1`)", input=render(sp, n1), actual=val, spec=sp, kind="loop")
+    return len(terms)
+
+
 def run(ctx):
     quick = ctx.quick()
     rng = ctx.rng
@@ -480,6 +538,9 @@ def run(ctx):
             check_range_cases(ctx, [[tuple(x) for x in v["reqs"]]], "replay")
         elif v.get("spec"):
             report(ctx, check_programs(ctx, [v["spec"]], quick, "replay"))
+        elif v.get("kind") == "repl":
+            check_repl(ctx, only=v["snippet"])
+        ctx.cov.update({"evaluations": 1, "distinct_nontrivial": 0, "rule": "replay of one recorded case", "samples": [v.get("input", "")[:2000]]})
         return
     if (c.get("HEAP_GROWTH_FACTOR"), c.get("HEAP_INIT_BYTES_MAX")) != (STATED_GROWTH, STATED_INIT):
         ctx.notes.append("constants in common.rs (%s, %s) differ from the property text (2, 65536): the bound is checked with the stated ones" % (
@@ -505,12 +566,15 @@ def run(ctx):
     shrink_first(ctx, quick)
     rcases = [gen_range_case(rng) for _ in range(30 if quick else 400)]
     evict = check_range_cases(ctx, rcases, "cases")
+    nrepl = check_repl(ctx)
+    nrunlog = check_run_logs(ctx, specs[len(singles):len(singles) + (4 if quick else 16)], quick)
     nontriv = {render(r["spec"], 0) for r in results if r["nontrivial"]}
     trivial = sum(1 for r in results if r.get("trivial"))
     from collections import Counter
     fr = Counter(f for r in results for f in r["spec"]["frags"])
     ctx.cov.update({
-        "evaluations": 4 * len(specs) + len(rcases) + 1,
+        "evaluations": 4 * len(specs) + len(rcases) + 1 + nrepl + nrunlog,
+        "repl_histories": nrepl, "run_log_replays": nrunlog,
         "distinct_nontrivial": len(nontriv),
         "rule": "loop programs = random subsets of %d allocation fragments (vectors, tuples, maps, strings, closures, instances, bound methods, iterators, "
                 "ranges, finished/suspended/nested fibers, exceptions, class/function definitions, cycles), optionally kept in a ring of bounded live data, "
